@@ -90,11 +90,13 @@ CHECKS = {
           "across chord boundaries, velocity = amplitude; rests, orphan continuations and absent parts are silent. to_events: for the rows of "
           "one part, any tempo and tick resolution, the audible events accumulated for its track are exactly those sounding notes with every "
           "onset and duration (continuations included) multiplied by 60 / (tempo x ticks per quarter); the pre-repair code (continuation added "
-          "in quarters) is refuted at tempo 120 by a witness. The whole matrix_to_events (global stable sorts, per-track dictionaries) is "
-          "modelled exactly and tied by correspondence.",
+          "in quarters) is refuted at tempo 120 by a witness. For the WHOLE matrix_to_events (all parts together): the global stable sort "
+          "by onset leaves each part's rows in order, the per-track dictionaries do not interfere and the final sort only orders the "
+          "output, so the events of a part's track in the output are, up to the output order, its sounding notes in seconds.",
   "note": "Trusted: Coq kernel; adapters (tick scaling by the LCM of denominators, float seconds recovered as exact rationals); Python's stable "
-          "sort. The seconds theorem is per track (Qeq on times); that the two global sorts of matrix_to_events keep each track's rows in order is "
-          "tied by model correspondence (2700 cases/run) and by the oracle, not proved. Tag-free notes, integer amplitudes, no 'x' placeholders.",
+          "sort. Times in seconds are compared with Qeq; the whole-matrix theorem assumes that the matrix contains each part's rows as rendered and "
+          "in time order (what get_notes produces; the concatenation itself is tied by correspondence) and states the output up to a permutation "
+          "(the ORDER of the output list is correspondence-only). Tag-free notes, integer amplitudes, no 'x' placeholders.",
  },
  "C12": {
   "text": "Theorems in integer ticks for every score whose parts last their chord: get_melody_between never fails and lasts exactly the "
